@@ -823,6 +823,9 @@ func (s *symFn) call(c *ssa.Call) *Sym {
 			if x.Op == "array" {
 				return sInt(int64(len(x.Kids)))
 			}
+			if str, ok := symStr(x); ok {
+				return sInt(int64(len(str)))
+			}
 			return &Sym{Op: "len", Kids: []*Sym{x}, Kind: "int"}
 		case "append":
 			kids := []*Sym{s.val(cc.Args[0])}
